@@ -7,6 +7,8 @@
 //   s:<hex>|s:-|s:N  S:...    string / empty / NULL  b:<hex>|b:-  blob
 //   T F N I                                          a:<elemtype dec>:<len>   array header
 //   R:<num>:<has_delta>       range header ('-')
+// a trailing field "#alias=<1|2|3>" makes blob data / strings of all lists of the case share
+// storage (see struct Pool); every slot is pre-filled with a varying byte pattern
 // cases:
 //   laws <L1> <L2> ... <Lk> [ignored]   -> cmp=<k*k signs, row major> eq=<k*k 0/1>
 //   comp <addrhex> <B> <V0> ... <Vk>    -> per variant Vi, joined by " | ":
@@ -19,6 +21,7 @@
 #include <rtosc/arg-val-cmp.h>
 #include <rtosc/arg-val-itr.h>
 #include <memory>
+#include <algorithm>
 
 struct AvList {
     rtosc_arg_val_t *p = nullptr; size_t n = 0;
@@ -37,12 +40,76 @@ static void *exact(const std::vector<uint8_t> &v, bool nul, std::vector<void*> &
     return q;
 }
 
+// Storage of blob data and strings.  A trailing case field "#alias=<mode>"
+// makes the values of ALL lists of the case share storage (the model compares
+// contents, so this must not change any result):
+//   0 (default) every value has its own exact-size buffer
+//   1 blobs: a blob that is a prefix of a longer one is a view of it (same data
+//     pointer, smaller len; the empty blob too); strings: equal strings share one buffer
+//   2 blobs: any sub-sequence of a longer blob is a view data+k (overlapping views);
+//     strings: a string that is a suffix of a longer one is a view s+k
+//   3 equal contents share one buffer (identical pointer and length), nothing else
+struct Pool {
+    int mode = 0;
+    std::vector<std::vector<uint8_t>> want_b, want_s;   // contents seen in the case
+    std::vector<std::pair<uint8_t*, size_t>> bufs_b, bufs_s;
+    std::vector<void*> owned;
+    ~Pool() { for(void *q : owned) free(q); }
+    static const uint8_t *find(const std::vector<std::pair<uint8_t*, size_t>> &bufs,
+                               const std::vector<uint8_t> &v, size_t vlen, int how)
+    {   // how: 0 prefix, 1 anywhere, 2 suffix, 3 whole
+        for(auto &b : bufs) {
+            if(vlen > b.second) continue;
+            size_t lo = (how == 2) ? b.second - vlen : 0;
+            size_t hi = (how == 0 || how == 3) ? 0 : b.second - vlen;
+            if(how == 3 && vlen != b.second) continue;
+            for(size_t k = lo; k <= hi; ++k)
+                if(vlen == 0 || memcmp(b.first + k, v.data(), vlen) == 0) return b.first + k;
+        }
+        return nullptr;
+    }
+    void build()
+    {   // longest first, so that the shorter contents become views
+        auto bylen = [](const std::vector<uint8_t> &a, const std::vector<uint8_t> &b) { return a.size() > b.size(); };
+        std::stable_sort(want_b.begin(), want_b.end(), bylen);
+        std::stable_sort(want_s.begin(), want_s.end(), bylen);
+        for(auto &v : want_b)
+            if(!find(bufs_b, v, v.size(), mode == 1 ? 0 : mode == 2 ? 1 : 3))
+                bufs_b.emplace_back((uint8_t*)exact(v, false, owned), v.size());
+        for(auto &v : want_s) {
+            std::vector<uint8_t> z(v); z.push_back(0);
+            if(!find(bufs_s, z, z.size(), mode == 2 ? 2 : 3))
+                bufs_s.emplace_back((uint8_t*)exact(z, false, owned), z.size());
+        }
+    }
+    uint8_t *blob(const std::vector<uint8_t> &v)
+    { return (uint8_t*)find(bufs_b, v, v.size(), mode == 1 ? 0 : mode == 2 ? 1 : 3); }
+    const char *str(const std::vector<uint8_t> &v)
+    { std::vector<uint8_t> z(v); z.push_back(0); return (const char*)find(bufs_s, z, z.size(), mode == 2 ? 2 : 3); }
+};
+static Pool *pool = nullptr;       // non-null while a case with #alias is handled
+
+static void pool_scan(Pool &P, const std::string &txt)
+{
+    if(txt == "-") return;
+    for(auto &tok : split(txt, ',')) {
+        if(tok.size() < 2 || tok[1] != ':') continue;
+        if(tok[0] == 'b') P.want_b.push_back(unhex(tok.substr(2)));
+        if((tok[0] == 's' || tok[0] == 'S') && tok.substr(2) != "N") P.want_s.push_back(unhex(tok.substr(2)));
+    }
+}
+
+// every rtosc_arg_val_t starts out filled with a pattern that differs from slot
+// to slot: padding bytes and the union members the tag does not select carry
+// no information, the model ignores them
+static unsigned dirt = 0;
+
 static void parse_list(const std::string &txt, AvList &L)
 {
     std::vector<rtosc_arg_val_t> v;
     if(txt != "-")
     for(auto &tok : split(txt, ',')) {
-        rtosc_arg_val_t a; memset(&a, 0, sizeof a);
+        rtosc_arg_val_t a; memset(&a, 0x5a ^ (int)(++dirt * 37u), sizeof a);
         auto f = split(tok, ':');
         if(f.empty() || f[0].size() != 1) { L.bad = true; return; }
         char t = f[0][0];
@@ -55,10 +122,11 @@ static void parse_list(const std::string &txt, AvList &L)
         case 'm': { a.type = t; auto b = unhex(f[1]); for(int k = 0; k < 4 && k < (int)b.size(); ++k) a.val.m[k] = b[k]; break; }
         case 's': case 'S':
             a.type = t;
-            a.val.s = (f[1] == "N") ? nullptr : (const char*)exact(unhex(f[1]), true, L.owned);
+            a.val.s = (f[1] == "N") ? nullptr
+                    : pool ? pool->str(unhex(f[1])) : (const char*)exact(unhex(f[1]), true, L.owned);
             break;
         case 'b': { a.type = t; auto b = unhex(f[1]); a.val.b.len = (int32_t)b.size();
-                    a.val.b.data = (uint8_t*)exact(b, false, L.owned); break; }
+                    a.val.b.data = pool ? pool->blob(b) : (uint8_t*)exact(b, false, L.owned); break; }
         case 'T': a.type = 'T'; a.val.T = 1; break;
         case 'F': a.type = 'F'; a.val.T = 0; break;
         case 'N': case 'I': a.type = t; break;
@@ -132,6 +200,16 @@ int main()
     while(std::getline(std::cin, line)) {
         auto f = split(line, ' ');
         std::string o;
+        Pool P;
+        pool = nullptr;
+        for(auto &x : f)
+            if(x.compare(0, 7, "#alias=") == 0) P.mode = atoi(x.c_str() + 7);
+        if(P.mode >= 1 && P.mode <= 3) {
+            for(size_t k = (f[0] == "comp" ? 2 : 1); k < f.size() && !f[k].empty() && f[k][0] != '#'; ++k)
+                pool_scan(P, f[k]);
+            P.build();
+            pool = &P;
+        }
         if(f.size() >= 2 && f[0] == "laws") {
             std::vector<std::unique_ptr<AvList>> Ls;
             bool bad = false;
